@@ -5,7 +5,7 @@ META = {
     "property_id": "C15",
     "technique": "Coq refinement of the announce TLV loop to a FIFO specification (induction over the queue) + size and sender lemmas + loop-discard lemma + executable oracle ok_C15 evaluated in Coq on implementation traces + trace correspondence",
     "category": "proof",
-    "text": "Proved for provider queues of any length and TLVs of any size: the TLVs a master port appends to its Announce are exactly the FIFO prefix that fits the remaining room, with entries from senders other than the parent and (path trace on) PATH_TRACE TLVs consumed but not forwarded — unmodified, in arrival order, each at most once — and the loop never panics; the encoded TLVs never exceed the room (frame <= MAX_DATA_LEN); an Announce from the parent whose path contains the own identity is discarded with all data sets untouched. History level (TLV suffix of every emitted Announce = path TLV ++ specification; every emitted frame decodes; ForwardTLV actions = the propagating TLVs of the parent's Announce; pathTraceDS follows the parent's path, cleared when absent, discarded on loop or overlong path) is the oracle ok_C15 evaluated in Coq on implementation traces.",
+    "text": "Whole histories: C15_main - for every valid set-up and EVERY valid event list the complete oracle ok_C15 accepts the model's own trace (emitted suffix = path-trace TLV + FIFO prefix of the parent's TLVs that fits, decodable by the library's parser; received Announce forwards all propagating TLVs or none, from the parent always unless the path-trace rule discards it; no other call forwards). Proved for provider queues of any length and TLVs of any size: the TLVs a master port appends to its Announce are exactly the FIFO prefix that fits the remaining room, with entries from senders other than the parent and (path trace on) PATH_TRACE TLVs consumed but not forwarded — unmodified, in arrival order, each at most once — and the loop never panics; the encoded TLVs never exceed the room (frame <= MAX_DATA_LEN); an Announce from the parent whose path contains the own identity is discarded with all data sets untouched. History level (TLV suffix of every emitted Announce = path TLV ++ specification; every emitted frame decodes; ForwardTLV actions = the propagating TLVs of the parent's Announce; pathTraceDS follows the parent's path, cleared when absent, discarded on loop or overlong path) is the oracle ok_C15 evaluated in Coq on implementation traces.",
     "design_ref": "DESIGN.md section 6 (C15)",
     "level_note": "The TLV provider handed to every announce timer is the daemon's real statime_linux::tlvforwarder::TlvForwarder (one duplicate per port of one broadcast channel, every ForwardTLV action forwarded to it as in main.rs: per-port duplicates, the forwarding port included, lag beyond the channel capacity of 128 loses the oldest). The model is fed, per announce event, with the queue a faithful forwarder holds at that point (FIFO; head kept while it does not fit; harness/src/port.rs FwdProvider keeps that specification queue beside the real forwarder), so a forwarder that loses, reorders, duplicates or alters a TLV makes the emitted Announce differ from the model's and is judged by ok_C15 on the trace. empty() (ethernet task only) is not exercised: F17 (ethernet task empties the queue when the port IS master) and F16 (an oversize TLV at the head blocks the queue; the property restricts itself to TLVs 'small enough to fit in an Announce at all') remain recorded observations (DESIGN section 7). Repaired and now covered: F3, F4, F5, F14, F23.",
 }
